@@ -15,6 +15,7 @@ The semantic half (the body of each standard-library function exhibits no flow a
 is not modelled; it is searched by native execution in the driver (labelled partial).
 -/
 import Argot.Proofs.Summ
+import Argot.Proofs.Contract
 import Argot.Gen.StdTable
 import Argot.Spec.Summ
 
@@ -84,6 +85,24 @@ theorems above vacuous). -/
 theorem std_table_nonempty : 300 ≤ Gen.stdTable.length ∧ Gen.stdTable.length = Gen.stdTableSize ∧
     200 ≤ (Gen.stdTable.filter fun e => e.sig.isSome).length := by decide +kernel
 
+/-- **A written flow is produced when the summary is applied at a call site**: for every row of the table
+outside the recorded ones, in the one-call program `a_i := source(); r… := f(a…); sink(r_j)…; sink(a_k)…`
+(f linked to the row's predefined summary graph) the visitor model of C10 reports `sink(r_j)` iff the row
+lists `j` for `i`, and `sink(a_k)` iff it lists `k` — nothing written is lost, nothing unwritten appears. -/
+theorem std_flows_reported (e : StdEntry) (he : e ∈ Gen.stdTable) (hk : e.key ∉ knownMisfits)
+    (sg : Sig) (hs : e.sig = some sg) (i : Nat) (hi : i < sg.nParams) (ptr : Nat → Bool) :
+    let p : Contract.OneCall := ⟨sg, e.summ, i, ptr, fun j => j⟩
+    (Contract.visitOneCall p (Contract.defaultFuel p)).converged = true ∧
+    (∀ j, Sum.inl j ∈ (Contract.visitOneCall p (Contract.defaultFuel p)).reported ↔
+      j < sg.nResults ∧ ∃ row, e.summ.rets[i]? = some row ∧ (j : Int) ∈ row) ∧
+    (∀ k, Sum.inr k ∈ (Contract.visitOneCall p (Contract.defaultFuel p)).reported ↔
+      k < sg.nParams ∧ k ≠ i ∧ ptr k = true ∧ ∃ row, e.summ.args[i]? = some row ∧ (k : Int) ∈ row) ∧
+    (apply sg true e.summ).dropped = [] := by
+  intro p
+  have hc := Contract.converged_default p hi (fun j _ => rfl)
+  have hx := Contract.visitOneCall_exact p hi (fun j _ => rfl) _ hc
+  exact ⟨hc, hx.1, hx.2, std_rows_lose_nothing e he hk sg hs⟩
+
 /-! ### negation witness in the model (independent of the table): a written position out of range is lost -/
 
 /-- `strings.Join(elems []string, sep string) string` with the row `Args {{0},{1}}, Rets {{0},{1}}`:
@@ -116,6 +135,7 @@ example : ∃ e ∈ Gen.stdTable, e.key = "strings.Replace" ∧ e.conforms = tru
 #print axioms edge_iff_listed
 #print axioms std_table_conforms
 #print axioms std_rows_lose_nothing
+#print axioms std_flows_reported
 #print axioms misfit_loses_flow
 
 end Argot.Summ
